@@ -273,8 +273,8 @@ class Future(BaseFuture):
             raise RuntimeError(
                 f"Something went wrong: future value {value} is not an int or None"
             )
-        if value is not None:
-            self._value = value
+        # Not cached: an array entry can be written again by a later subroutine
+        # (e.g. `add`), and the handle must keep showing the current value.
         return value
 
     def add(
